@@ -73,6 +73,7 @@ type WorkerOut struct {
 	ViolCount  map[string]int    `json:"viol_count"`
 	Samples    []sim.Replay      `json:"samples"`
 	Extra      map[string]int    `json:"extra"`
+	Sched      []uint64          `json:"sched,omitempty"`
 	WallS      float64           `json:"wall_s"`
 	Notes      map[string]string `json:"notes,omitempty"`
 }
@@ -145,7 +146,9 @@ func cmdWork(args []string) int {
 	start := time.Now()
 	o := newWorkerOut(*worker)
 	states := map[uint64]bool{}
-	if *prop == "C12" || *prop == "C20" {
+	if *prop == "C13" {
+		workPar(*tier, *seed, *worker, *budget, *maxRuns, o, states)
+	} else if *prop == "C12" || *prop == "C20" {
 		workTrace(*prop, *tier, *seed, *worker, *budget, *maxRuns, o, states)
 	} else {
 		for run := 0; run < *maxRuns; run++ {
@@ -329,6 +332,9 @@ func runWorkers(propv, tierv string, seedv uint64, engine string) int {
 			outFile := filepath.Join(tmp, fmt.Sprintf("w%d.json", i))
 			cmd := exec.Command(os.Args[0], "work", "-prop", *prop, "-tier", *tier, "-seed", fmt.Sprint(*seed), "-worker", fmt.Sprint(i), "-budget", fmt.Sprint(tc.budget), "-out", outFile)
 			cmd.Env = append(os.Environ(), "GOMAXPROCS=2")
+			if *prop == "C13" {
+				cmd.Env = append(cmd.Env, "GORACE=halt_on_error=0 exitcode=0 log_path="+filepath.Join(tmp, fmt.Sprintf("race-w%d", i)))
+			}
 			b, err := cmd.CombinedOutput()
 			ch <- wres{i, err, string(b)}
 		}(i)
@@ -391,6 +397,7 @@ func merge(t *WorkerOut, o *WorkerOut, states map[uint64]bool) {
 	add(t.Foreign, o.Foreign)
 	add(t.ViolCount, o.ViolCount)
 	add(t.Extra, o.Extra)
+	t.Sched = append(t.Sched, o.Sched...)
 	t.Viol = append(t.Viol, o.Viol...)
 	if len(t.Samples) < 3 {
 		t.Samples = append(t.Samples, o.Samples...)
@@ -434,7 +441,9 @@ func conclude(prop, tier string, seed uint64, total *WorkerOut, states map[uint6
 			continue
 		}
 		// minimise
-		if rp.Engine != "B" {
+		if rp.Engine == "B" {
+			minimisePar(rp, sig)
+		} else {
 			before := len(rp.Ops)
 			rp.Ops = sim.Minimise(rp.Ops, sig, 400, func(ops []sim.Op) []sim.Violation {
 				return execMode(prop, tier, rp.Mode, rp.Cfg, ops)
@@ -501,6 +510,18 @@ func writeEvidence(prop, tier string, seed uint64, t *WorkerOut, states map[uint
 			break
 		}
 		s := &t.Samples[i]
+		if s.Par != nil {
+			var segs []any
+			for _, sg := range s.Par.Segments {
+				e := map[string]any{"world_ops": sim.Describe(sg.Ops, 25)}
+				if sg.Round != nil {
+					e["round"] = map[string]any{"filters": sg.Round.Filters, "goroutine_scripts": sg.Round.Scripts, "scheduler_seed": sg.Round.Seed, "schedule_length": len(sg.Round.Schedule)}
+				}
+				segs = append(segs, e)
+			}
+			samples = append(samples, map[string]any{"seed": s.Seed, "worker": s.Worker, "run": s.Run, "cfg": s.Cfg, "segments": segs})
+			continue
+		}
 		samples = append(samples, map[string]any{"seed": s.Seed, "worker": s.Worker, "run": s.Run, "mode": s.Mode, "cfg": s.Cfg, "ops": sim.Describe(s.Ops, 60)})
 	}
 	if len(samples) == 0 {
@@ -535,6 +556,13 @@ func writeEvidence(prop, tier string, seed uint64, t *WorkerOut, states map[uint
 		"real_code":                           "all of package github.com/mlange-42/ark/ecs, built from /repo's working tree with -tags verif",
 		"stubs":                               "none; seams: Shrink clock-skew hook, lock yield hooks, reach probes",
 		"toolchain":                           runtime.Version(),
+	}
+	if engine == "B" {
+		seen := map[uint64]bool{}
+		for _, h := range t.Sched {
+			seen[h] = true
+		}
+		cov["distinct_schedules"] = len(seen)
 	}
 	if level == "fault_enumeration" {
 		cov["exhaustive"] = false
